@@ -38,6 +38,19 @@
 (*     ndarray either way (BUG_OVERLIST documents the pinned behaviour)     *)
 (*   - mask and index call shapes (ndarray / list, int32 / int64), the      *)
 (*     dtype (float64, int64, float32) and the strides of the start columns *)
+(*   - the VALUES and dtypes behind the model's labels 0..2: start forms     *)
+(*     with fractional floats next to an integer first column, a float32     *)
+(*     first column next to float64 values that need more than 24 bits,      *)
+(*     int64 ids beyond 2^53 next to a float first column; every row         *)
+(*     operation / copy is judged on the exact values and dtypes             *)
+(* REFUSED operations (the Refused* actions): every operation that validates *)
+(* its input has failing variants (ragged / wrong-shape set_bigarray, wrong- *)
+(* length column through addcolumn / setcolumn / cf[t] = / cf.t =, setcolumn *)
+(* of a missing title, wrong-length mask for filter / copyrows, removerows / *)
+(* sortby of a missing title, copyrows / reorder with an out-of-range index, *)
+(* reorder with too few indices).  The call raises and the law is            *)
+(* RefusedNoTrace: the state is the one before the call (so Rectangular,     *)
+(* ViewsAgree, SameStorage hold and the history can go on).                  *)
 (* The value returned by get_bigarray is part of every history entry       *)
 (* (`ret` = the buffer ids of its rows; <<>> for every other operation).   *)
 (***************************************************************************)
@@ -51,6 +64,9 @@ CONSTANTS MaxDepth,            \* bound on the number of operations
           BUG_SLICE,           \* copyrows(slice) returns views of the parent                   (F9)
           BUG_CPNCOLS,         \* copyrows leaves ncols of the row-copy at 0                    (audit D)
           BUG_OVERLIST,        \* list mode: addcolumn(python list, existing title) stores the list itself (audit D)
+          BUG_REFUSED_NROWS,   \* set_bigarray assigns nrows BEFORE the rectangularity check: a refused ragged table
+                               \* whose first column has another length leaves nrows changed (never the case on the
+                               \* pinned tree; documents how TLC finds a refused call that leaves a trace)
           AllowAlias,          \* enable addcolumn(cf.s, t): two titles, one buffer
           EmitMode             \* 0 none, 1 every transition (ACTION_CONSTRAINT), 2 final states only,
                                \* 3 every transition of a history that contains addalias
@@ -339,7 +355,32 @@ InPlaceAttr(t, v) ==
                                !.attr[t] = IF BUG_ARRATTR THEN b ELSE s.data[Idx(s, t)]], <<"inplace_attr", t, v>>)
         ELSE Commit([R1 EXCEPT !.data[Idx(s, t)] = b], <<"inplace_attr", t, v>>)
 
+\* ---- refused operations ------------------------------------------------------------------
+\* The call raises; the object must be as it was.  o = <<"refused", kind, ...>>
+\*   setbig_ragged first other : list of Len(titles) columns, the first `first` long, the last `other` long
+\*   setbig_ncols kind         : one column too many (kind 0 list / 1 2-D array), nrows long
+\*   column_len route t        : array one longer than nrows through route (addcolumn, setcolumn, setitem, setattr)
+\*   setcolumn_missing t       : setcolumn(right length, title that is not there)
+\*   filter_len / copyrows_len : mask one longer than nrows
+\*   missing route             : removerows / sortby on a title that never exists
+\*   copyrows_oob / reorder_oob: an index = nrows ; reorder_short: nrows - 1 indices (nrows = 3)
+RefusedOp(o) ==
+  /\ Enabled0
+  /\ LET trace == BUG_REFUSED_NROWS /\ o[2] = "setbig_ragged" /\ o[3] # s.nrows
+     IN Commit(IF trace THEN [s EXCEPT !.nrows = o[3]] ELSE s, o)
+RefusedAlphabet ==
+  {<<"refused", "setbig_ragged", 2, 3>>, <<"refused", "setbig_ragged", 3, 2>>,
+   <<"refused", "setbig_ncols", 0>>, <<"refused", "setbig_ncols", 1>>,
+   <<"refused", "filter_len">>, <<"refused", "copyrows_len">>,
+   <<"refused", "missing", "removerows">>, <<"refused", "missing", "sortby">>,
+   <<"refused", "copyrows_oob">>, <<"refused", "reorder_oob">>}
+  \cup {<<"refused", "column_len", r, t>> : r \in {"addcolumn", "setitem"}, t \in {"a", "c"}}
+  \cup {<<"refused", "column_len", r, "a">> : r \in {"setcolumn", "setattr"}}
+  \cup (IF Has(s.titles, "c") THEN {} ELSE {<<"refused", "setcolumn_missing", "c">>})
+  \cup (IF s.nrows = 3 THEN {<<"refused", "reorder_short">>} ELSE {})
+
 Next ==
+  \/ \E o \in RefusedAlphabet : RefusedOp(o)
   \/ \E t \in TitleSet, v \in Vals : AddNew(t, v) \/ AddOver(t, v) \/ SetItemScalar(t, v) \/ SetAttrScalar(t, v)
   \/ \E t \in TitleSet, v \in Vals : SetItemNew(t, v) \/ AddOverList(t, v)
   \/ \E t \in TitleSet, v \in {0, 1} : SetItemArray(t, v) \/ SetAttrArray(t, v)
@@ -395,6 +436,10 @@ RowOpsUniformStep ==
       /\ \A i \in 1..Len(s.titles) :
             s'.heap[s'.data[i]] = Gather(s.heap[s.attr[s.titles[i]]], RowMap(LastOp))
 RowOpsUniform == [][RowOpsUniformStep]_vars
+
+\* an operation that raises leaves the object unchanged
+RefusedNoTraceStep == (hist' # hist /\ LastOp[1] = "refused") => s' = s
+RefusedNoTrace == [][RefusedNoTraceStep]_vars
 
 \* ---- emission for the replay harness -------------------------------------------------------
 Compact(h) == [i \in 1..Len(h) |-> IF i = Len(h) THEN h[i] ELSE [op |-> h[i].op]]
